@@ -45,10 +45,7 @@ Proof.
     + intros He. destruct (J5 s I u He) as (Hl & H1 & Ht1 & HWc & HRc). repeat split; auto. rewrite Htot; auto.
   - intros Hl. destruct (J6 s I Hl) as [H0 Hall]. split; [rewrite Htot; auto|].
     intros u. rewrite HT. destruct (Nat.eqb_spec u t) as [->|]; cbn [mustfree excl x']; apply Hall.
-  - intros u q m0. rewrite HT. destruct (Nat.eqb_spec u t) as [->|Hne']; cbn [refs clk x'].
-    + intros Hr' Hq Hn0 Hall1. apply (J7 s I t q m0 Hr' Hq Hn0).
-      intros m' Hin Hhb. apply (Hall1 m' Hin). eapply hb_mono; [exact Hcc | exact Hhb].
-    + apply (J7 s I u q m0).
+  - apply J7_upd; auto.
   - intros u. rewrite HT. destruct (Nat.eqb_spec u t) as [->|Hne']; cbn [started x']; [discriminate|].
     apply (J8 s I u).
   - intros Hl H0. rewrite Htot in H0. destruct (J9 s I Hl H0) as (h & Hm). exists h. rewrite HT.
@@ -98,7 +95,7 @@ Proof.
   - intros u. rewrite HT. destruct (Nat.eqb_spec u t) as [->|Hne']; cbn [excl refs clk x'];
       intros He; [destruct (J5 s I t He) as (_ & H1 & _)|destruct (J5 s I u He) as (_ & H1 & _)]; rewrite Hr0 in H1; lia.
   - discriminate.
-  - intros u q m0. rewrite HT. destruct (Nat.eqb_spec u t) as [->|Hne']; cbn [refs clk x']; rewrite Hr0; lia.
+  - apply J7_upd; auto.
   - intros u. rewrite HT. destruct (Nat.eqb_spec u t) as [->|Hne']; cbn [started x']; [discriminate|].
     apply (J8 s I u).
   - intros _ _. exists t. rewrite HT, Nat.eqb_refl. reflexivity.
